@@ -250,6 +250,72 @@ theorem C09_prefix_not_matched :
     searchMatches (.cat (lit 'f') (.cat (lit 'o') (lit 'o'))) ['x', 'f', 'o', 'o', 'b'] = true := by
   decide
 
+/-! ### known findings (negation lemmas with concrete witnesses)
+
+The theorems above are about the model's own notion of root.  Two places where that notion, and one
+where the naming of anonymous items, departs from the property text: -/
+
+/-- `[^n].*` -/
+def exPatNotN : Re := .cat (.cls true [(110, 110)]) (.star dot)
+
+/-- `struct nU { int a; }; struct other { int b; }; void F(struct nU *p);` with
+`--allowlist-type '[^n].*'`: items 1 = `nU`, 4 = `other`, 8 = the pointer type `struct nU *`
+(synthetic name `ptr_struct_nU`), 11 = `F`. -/
+def exSynItems : List ItemInfo := [
+  { id := 0, cls := .module, useInsteadOf := false, file := none, name := [], autoKind := false,
+    parentIsModule := false, unnamedEnumVariants := none },
+  { id := 1, cls := .type, useInsteadOf := false, file := none, name := ['n', 'U'], autoKind := false,
+    parentIsModule := true, unnamedEnumVariants := none },
+  { id := 4, cls := .type, useInsteadOf := false, file := none, name := ['o', 't', 'h', 'e', 'r'],
+    autoKind := false, parentIsModule := true, unnamedEnumVariants := none },
+  { id := 8, cls := .type, useInsteadOf := false, file := none,
+    name := ['p', 't', 'r', '_', 's', 't', 'r', 'u', 'c', 't', '_', 'n', 'U'], autoKind := true,
+    syntheticKind := true, parentIsModule := true, unnamedEnumVariants := none },
+  { id := 11, cls := .fnFunction, useInsteadOf := false, file := none, name := ['F'], autoKind := false,
+    parentIsModule := true, unnamedEnumVariants := none } ]
+
+def exSynGraph : Graph where
+  nodes := [0, 1, 4, 8, 11]
+  out := fun
+    | 8 => [⟨1, .typeReference⟩]
+    | _ => []
+
+def exSynOpts : Options :=
+  { cfg := 63, recursive := true, sizeTIsUsize := true, types := ⟨[some exPatNotN]⟩, functions := ⟨[]⟩,
+    vars := ⟨[]⟩, files := ⟨[]⟩, items := ⟨[]⟩ }
+
+/-- Known finding `synthetic_names_match`: `nU` does not match `[^n].*` and nothing the user named
+needs it, yet it is in `codegen_items`, because the pointer type item `struct nU *` carries the
+synthetic name `ptr_struct_nU`, which matches (region `syntheticRoot`). -/
+theorem C09_fails_on_synthetic_names :
+    exSynOpts.types.matches ['n', 'U'] = false ∧
+    (exSynItems.filter (fun it => syntheticRoot exSynOpts it)).map (·.id) = [8] ∧
+    (compute exSynGraph exSynOpts exSynItems (fun _ => true) (fun _ => false)).map (·.codegen)
+      = some [0, 4, 8, 1] := by decide
+
+/-- without the synthetic root `nU` is not generated -/
+theorem C09_without_synthetic_root :
+    (allowlistedTraversal (exSynGraph.succ fun _ => true) (fun _ => false) 10 [4, 0]) = some [0, 4] := by decide
+
+/-- Known finding `anon_type_renumbered`: two anonymous enums `a` (in an allow-listed file) and `b`.
+Un-allow-listed, names are first requested in codegen order `[a, b]`; with `--allowlist-file` the root
+filter returns early for `a` and requests the name of `b` first.  The same item gets two numbers. -/
+theorem C09_fails_on_anon_renumbering :
+    localId [10, 20] 10 = some 1 ∧ localId [20, 10] 10 = some 2 := by decide
+
+/-- the early return that reorders the requests -/
+theorem C09_file_match_skips_name (o : Options) (it : ItemInfo) (f : List Char)
+    (hf : it.file = some f) (hne : o.files.isEmpty = false) (hm : o.files.matches f = true)
+    : nameRequestedByRootFilter o it = false := by
+  unfold nameRequestedByRootFilter
+  by_cases h1 : (o.types.isEmpty && o.functions.isEmpty && o.vars.isEmpty && o.files.isEmpty && o.items.isEmpty) = true
+  · rw [if_pos h1]
+  · rw [if_neg h1]
+    by_cases h2 : it.useInsteadOf = true
+    · rw [if_pos h2]
+    · rw [if_neg h2]
+      simp [hf, hne, hm]
+
 /-! ### non-vacuity -/
 
 /-- a 4-node graph: 0 → 1 (blocklisted) → 2, and 3 unrelated: yields exactly 0 and 2 -/
